@@ -254,6 +254,9 @@ func doConsume(c *h.Ctx, cat string, in []byte) {
 		return
 	}
 	c.Case(cat, len(in) > 0, "consume_varint", [][]byte{in}, optNum(v, n))
+	if v64, n64 := quicwire.ConsumeVarintInt64(in); n64 != n || v64 < 0 || uint64(v64) != v {
+		c.Violation("ConsumeVarintInt64 returns the value and length ConsumeVarint returns (62 bits never overflow an int64)", map[string]any{"input": h.Hex(in), "v": v, "v64": v64})
+	}
 	// predicate: reads only the announced bytes; fails exactly when fewer are available
 	if len(in) > 0 {
 		k := 1 << (in[0] >> 6)
